@@ -242,8 +242,22 @@ def finish(pid, tier, seed, reg, results, wall):
         for e_ in c.externals:
             assumptions.add("%s: external %s modelled by an axiomatised stub" % (r["key"], e_))
     bounded = rp.bounded_results(pid, tier, seed, reg)
+    # ---- native sampling cross-check of the proved contracts (thorough tier, or PYVC_XCHECK=1)
+    xc = []
+    if tier == "thorough" or os.environ.get("PYVC_XCHECK"):
+        from pyvc import xcheck
+        t_x = time.time()
+        for r in results:
+            if r["status"] != "ok" or time.time() - t_x > 600:
+                continue
+            c = reg.contracts[r["key"]]
+            try:
+                xc.append(xcheck.cross_check(c, r["variant"], seed))
+            except Exception:
+                xc.append(dict(function=r["key"], variant=r["variant"], sampled=0, accepted=0, failures=[], skipped="cross-check crashed: %s" % traceback.format_exc()[-200:]))
+    xc_fail = [x for x in xc if x["failures"]]
     status_code = 0
-    if errors or inv_problems:
+    if errors or inv_problems or xc_fail:
         status_code = 3
     elif violations:
         status_code = 1
@@ -271,6 +285,10 @@ def finish(pid, tier, seed, reg, results, wall):
             modular_callees=sorted({x for r in results for x in r.get("modular", [])}),
             bounded=[{k: v for k, v in b.items() if k not in ("violations", "known_lines")} for b in bounded],
             undecided=undecided_msgs, known_findings=known_lines,
+            cross_check=dict(functions=len(xc), sampled_ok=sum(1 for x in xc if x["accepted"] and not x["failures"]),
+                             accepted_inputs=sum(x["accepted"] for x in xc), skipped=sum(1 for x in xc if x["skipped"]),
+                             failures=[x for x in xc if x["failures"]][:10],
+                             note="native evaluation of the proved clauses on sampled inputs under CPython/NumPy (thorough tier)"),
             _all_obligations=sorted(agg.keys()),
             failed=[dict(name=a["name"], model=a["model"]) for a in failed],
             explanation="Every obligation is (path condition => goal) generated by symbolic execution of the real /repo source and "
@@ -292,6 +310,11 @@ def finish(pid, tier, seed, reg, results, wall):
         print("CHECKER-ERROR %s[%s]: %s" % (r["key"], r["variant"], r["message"][-1500:]))
     for m in inv_problems:
         print("CHECKER-ERROR inventory: " + m)
+    if xc:
+        print("cross-check: %d functions x variants, %d inputs accepted by the preconditions and evaluated natively, %d with mismatches, %d not sampled" % (
+            len(xc), sum(x["accepted"] for x in xc), len(xc_fail), sum(1 for x in xc if x["skipped"] or not x["accepted"])))
+    for x in xc_fail:
+        print("CHECKER-ERROR cross-check mismatch %s[%s]: %s" % (x["function"], x["variant"], json.dumps(x["failures"][0])[:600]))
     for m in undecided_msgs:
         print(m)
     for kl in known_lines:
